@@ -24,9 +24,10 @@ structure Stage where
   witness : Bool                  -- which sighash closure
   deriving Repr
 
-/-- `P2SChecker.is_pay_to_script_hash`: length 23, first byte OP_HASH160, last byte OP_EQUAL (byte 1 not examined) -/
+/-- `P2SChecker.is_pay_to_script_hash`: length 23, first byte OP_HASH160, second byte 20, last byte OP_EQUAL -/
 def isPayToScriptHash (spk : Bytes) : Bool :=
-  spk.length == 23 && spk.head? == some (UInt8.ofNat p2s_OP_HASH160) && spk.getLast? == some (UInt8.ofNat p2s_OP_EQUAL)
+  spk.length == 23 && spk.head? == some (UInt8.ofNat p2s_OP_HASH160) && spk[1]? == some 20 &&
+    spk.getLast? == some (UInt8.ofNat p2s_OP_EQUAL)
 
 /-- `SegwitChecker._witness_program_version` -/
 def witnessProgramVersion (script : Bytes) : Option Nat :=
@@ -57,8 +58,8 @@ def checkWitnessProgramV0 (env : Env) (witnessPy : List Bytes) (program : Bytes)
   else .error (scriptErr errno_WITNESS_PROGRAM_WRONG_LENGTH)
 
 /-- `witness_program_tuple(tx_context, puzzle_script, solution_stack, flags, is_p2sh)` -/
-def witnessProgramTuple (env : Env) (c : SolCtx) (puzzle : Bytes) (solutionStackPy : List Bytes) (flags : Nat)
-    (isP2sh : Bool) : M (Option Stage) := do
+def witnessProgramTuple (env : Env) (c : SolCtx) (puzzle : Bytes) (flags : Nat) (isP2sh : Bool) :
+    M (Option Stage) := do
   if !hasFlag flags VERIFY_WITNESS then return none
   match witnessProgramVersion puzzle with
   | none =>
@@ -66,15 +67,19 @@ def witnessProgramTuple (env : Env) (c : SolCtx) (puzzle : Bytes) (solutionStack
     return none
   | some version =>
     let program := puzzle.drop 2
-    if solutionStackPy.length > 0 then
+    -- the scriptSig must be exactly empty (native) or exactly the canonical push of the program (P2SH)
+    let expected ← if isP2sh then compilePushData puzzle else pure []
+    if c.solutionScript ≠ expected then
       .error (scriptErr (if isP2sh then errno_WITNESS_MALLEATED_P2SH else errno_WITNESS_MALLEATED))
-    if c.witnessPy.any (fun s => s.length > MAX_BLOB_LENGTH) then .error (scriptErr errno_PUSH_SIZE)
     if version = 0 then
       let (stackPy, puzzle) ← checkWitnessProgramV0 env c.witnessPy program
+      if stackPy.any (fun s => s.length > MAX_BLOB_LENGTH) then .error (scriptErr errno_PUSH_SIZE)
       return some ⟨puzzle, stackPy, flags ||| VERIFY_CLEANSTACK, true⟩
     else if hasFlag flags VERIFY_DISCOURAGE_UPGRADABLE_WITNESS_PROGRAM then
       .error (scriptErr errno_DISCOURAGE_UPGRADABLE_WITNESS_PROGRAM)
-    return none
+    else
+      -- undefined version: run the script OP_1 (one true item, passes CLEANSTACK)
+      return some ⟨op1Script, [], flags, true⟩
 
 /-- one pass of the `for` loop body of `check_solution`: run the VM, truth test; returns the final stack (Python order) -/
 def runStage (env : Env) (c : SolCtx) (st : Stage) : M (List Bytes) := do
@@ -108,7 +113,7 @@ def checkSolution (env : Env) (c : SolCtx) (flags : Nat) : M Unit := do
         pure (st, stackPy, redeem, solutionStackPy.dropLast, true)
     else pure (stage1, stackPy, c.puzzleScript, solutionStackPy, false)
   -- witness_program_tuple gets the *unfiltered* flags
-  let (last, stackPy) ← match ← witnessProgramTuple env c puzzle solutionStackPy flags isP2sh with
+  let (last, stackPy) ← match ← witnessProgramTuple env c puzzle flags isP2sh with
     | some st => do pure (st, ← runStage env c st)
     | none => pure (last, stackPy)
   -- `if flags and flags & VERIFY_CLEANSTACK and len(stack) != 1` with the flags of the last tuple
